@@ -80,10 +80,19 @@ def build (n : ℕ) (j : Json) : J.R (Rep n K) := do
     ρ ← lift (ρ.setGenerator io.invert g A ci)
   return ρ
 
+/-- the list form executed by `evalWords` / the `"elements"` query is the string-level loop
+`[rep.element(w) for w in words]` -/
+theorem elementsS_eq {p : ℕ} (σ : Rep p K) (ws : List String) (simple : Option Bool) :
+    σ.elements (ws.map (parseWord (simple.getD σ.parseSimple))) = ws.mapM fun w => σ.wordValueS w simple := by
+  unfold Rep.elements Rep.wordValueS
+  rw [List.mapM_map]
+  rfl
+
 def evalWords {p : ℕ} (σ : Rep p K) (q : Json) : M? Json := do
   let ws ← (do (← arr (fieldD q "ws" (.arr #[]))).mapM str : J.R _)
   let simple := optBool q "evsimple"
-  let vals ← ws.toList.mapM fun w => σ.wordValueS w simple
+  -- `elements(words)` on the parsed words (`wordValueS w simple = wordValue (parseWord … w)`, see `elementsS_eq`)
+  let vals ← σ.elements (ws.toList.map (parseWord (simple.getD σ.parseSimple)))
   pure (Json.mkObj [("gens", .arr (σ.gens.map (fun kv => Json.str kv.1)).toArray),
                     ("rels", .arr (σ.relations.map fun r => Json.arr (r.map Json.str).toArray).toArray),
                     ("vals", .arr (vals.map (outMat io)).toArray)])
@@ -127,6 +136,11 @@ def query (n : ℕ) (ρ : Rep n K) (q : Json) : M? Json := do
   match kind with
   | "word" => pure (outMat io (← ρ.wordValueS (← strf q "w") (optBool q "simple")))
   | "gens" => pure (.arr (ρ.gens.map fun kv => Json.arr #[.str kv.1, outMat io kv.2]).toArray)
+  | "elements" =>
+    -- `rep.elements(words)`: the whole list or the first exception
+    let ws ← (do (← arr (fieldD q "ws" (.arr #[]))).mapM str : J.R _)
+    let ms ← ρ.elements (ws.toList.map (parseWord ((optBool q "simple").getD ρ.parseSimple)))
+    pure (.arr (ms.map (outMat io)).toArray)
   | "asym" => pure (.arr (ρ.asymGens.map Json.str).toArray)
   | "derived" => derived io n ρ q
   | "diff" =>
